@@ -549,11 +549,13 @@ theorem pres_doRegister (st : St) (k : Int) (reg : St → St × Nat) (h : ∀ s,
     · exact (grow_emit _ _).pres
     · exact (h st).trans (grow_with_slots _ _).pres
 
+theorem grow_with_cancelReq (st : St) (l : List Int) : Grow st { st with cancelReq := l } := Grow.of_eq rfl rfl
+
 theorem pres_doCancel (st : St) (k : Int) : Pres st (doCancel st k) := by
   unfold doCancel
   split
   · exact (grow_emit _ _).pres
-  · exact pres_watchCancel _ _
+  · exact (grow_with_cancelReq _ _).pres.trans (pres_watchCancel _ _)
 
 /-- Everything a callback can do keeps the timer queue ordered. -/
 theorem pres_runAct (st : St) (act : Act) : Pres st (runAct st act) := by
